@@ -36,4 +36,4 @@ meta = {"property": pid, "seed": pid + tag, "demo_rc_changed": int(rc1), "demo_r
 json.dump(meta, open('/verif/seeded/%s%s/meta.json' % (pid, tag), 'w'), indent=1)
 print(json.dumps(meta)[:400])
 P
-git -C /repo worktree remove --force $WT 2>/dev/null; rm -rf /tmp/seedkit/.cache/obj 2>/dev/null; true
+git -C /repo worktree remove --force $WT 2>/dev/null; true
